@@ -22,6 +22,7 @@ import NemoVerif.Lemmas.GroupCoreVMRun
 import NemoVerif.Lemmas.GroupCoreVMStart
 import NemoVerif.Lemmas.GroupCoreVMOrRun
 import NemoVerif.Lemmas.GroupCoreVMExit
+import NemoVerif.Lemmas.GroupCoreVMOrStart
 namespace NemoVerif.C07
 open NemoVerif NemoVerif.Dnf NemoVerif.GroupExpand NemoVerif.GroupVM
 
@@ -520,6 +521,38 @@ theorem groupvm_is_corevm_partial_exit (fuel : Nat) (s : CoreVM.VM) (f : CoreInd
     ∃ s' i', CoreVM.advanceMember (fuel + 2) f h s = .ok [] s' ∧ CoreVM.FlowAt s' f i' x cfg ∧
       CoreVM.hview i' = (CoreVM.hview i).map (CoreVM.setPosCore h (hd.pos + 2)) :=
   CoreVM.group_exit fuel s f h i x cfg hd spec n H hsz hc1 hc2 hp hargs hint hcl
+
+/-- **groupvm_is_corevm_partial (a pure or-group of single atoms from its first element to completion, every event sequence, EVERY
+    tie-break).**  The root head is the only head of the instance, ACTIVE on `CatchPatternFailure; ForkHead mu [l_1 … l_n]`, and the
+    program has the or-template with single-atom clauses behind it.  CoreVM's `slide` forks the branch heads, they are advanced onto
+    their match elements, and for EVERY event sequence and EVERY adequate list of `random.choice` outcomes the slide-level driver
+    outputs exactly `markers (.or (c.map .atom)) es`. -/
+theorem groupvm_is_corevm_partial_or_group (fuel : Nat) (s : CoreVM.VM) (f : CoreIndex.FUid) (h : CoreIndex.HUid) (i : CoreIndex.Inst)
+    (x : CoreVM.InstX) (cfg : CoreVM.FlowCfg) (hd : CoreIndex.Head)
+    (fl mu l : String) (lps : List (String × Nat)) (c : List Nat) (pe : Nat) (a0 : CoreVM.HeadX)
+    (H : CoreVM.HeadAt s f h i x cfg hd) (hact : hd.status = .active) (hlis : i.status.listening = true)
+    (hcatch : cfg.elements[hd.pos]! = .catchFail (some fl)) (hsz : hd.pos + 1 < cfg.elements.size)
+    (hfork : cfg.elements[hd.pos + 1]! = .fork mu (lps.map (·.1)))
+    (hl : ∀ lp ∈ lps, cfg.label lp.1 = some lp.2 ∧ lp.2 ≠ 0 ∧ CoreVM.NotMatchAt cfg lp.2)
+    (hnews : ∀ lp ∈ lps, lp.2 + 1 < cfg.elements.size ∧ ∃ spec b n, cfg.elements[lp.2 + 1]! = .matchOp spec b ∧ CoreVM.PlainSpec spec n)
+    (hroot : CoreVM.hview i = [(h, hd.pos, CoreIndex.HeadStatus.active)])
+    (hfresh : ∀ m, m > s.r.nextUid → CoreVM.uidOf m ∉ i.headUids) (hown : x.ctxOwner = none)
+    (ha0 : OMap.lookup (f, h) s.r.hx = some a0) (ha0c : a0.childHeadUids = [])
+    (hfx0 : ∀ m, m > s.r.nextUid → OMap.lookup (f, CoreVM.uidOf m) s.r.hx = none)
+    (hmu : ∀ m, CoreVM.uidOf m ≠ mu)
+    (C : CoreVM.OrShape cfg l mu pe)
+    (S : ∀ lp ∈ lps, cfg.elements[lp.2 + 1 + 1]! = .goto (.lit (.bool true)) l ∧ lp.2 + 1 + 1 < pe + 1)
+    (hfp : hd.pos + 1 ≠ pe + 1) (hc : c.length = lps.length)
+    (hadq : ∀ n, n ≤ lps.length → CoreVM.Adequate n s.r.choices) (es : List Nat) :
+    ∃ s1 s2 s3, CoreVM.slide (fuel + 2) f h s = .ok (CoreVM.newKeys f s.r.nextUid lps.length) s1 ∧
+      CoreVM.runMembers (fuel + 1) f ((CoreVM.newKeys f s.r.nextUid lps.length).map (·.2)) s1 = .ok () s2 ∧
+      CoreVM.orDriver fuel f ((CoreVM.newsOf s.r.nextUid (lps.map (·.2))).map fun q => (q.1, q.2 + 1)) (CoreVM.allSingle c) false es s2
+        = .ok (markers (.or (c.map .atom)) es) s3 := by
+  obtain ⟨s1, s2, s3, h1, h2, h3⟩ := CoreVM.or_group_from_start fuel s f h i x cfg hd fl mu l lps c pe a0 H hact hlis hcatch hsz hfork hl
+    hnews hroot hfresh hown ha0 ha0c hfx0 hmu C S hfp hc hadq es
+  refine ⟨s1, s2, s3, h1, h2, ?_⟩
+  rw [h3]
+  simp only [markers, normalize_eq, toDnf_ofDnf, dnf, dnfOr_atoms, Dnf.init]
 
 /-! ## the expanded element list -/
 
@@ -1057,5 +1090,49 @@ example :=
   groupvm_is_corevm_partial_exit 1 exVMExit "m" "h0" { uid := "m", status := .waiting, heads := [{ uid := "h0", pos := 15, status := .active, elem := none }] }
     exX exCfgAndHit { uid := "h0", pos := 15, status := .active, elem := none } (exSpec "Hit") "Hit"
     { hi := rfl, hx := rfl, hc := rfl, hh := rfl, hlt := by decide, hst := by decide } (by decide) rfl rfl ⟨rfl, rfl, rfl⟩ rfl (by decide) rfl
+
+/-- the root head of `match E0() or E1()` on `CatchPatternFailure`, with its HeadX record and recorded tie-breaks -/
+def exVMRootOr : CoreVM.VM :=
+  { ixs := exIxsRoot, r := { prog := { flows := [exCfgOr] }, fx := [("m", exX)], hx := [(("m", "h0"), {})], choices := [0, 0] } }
+
+-- non-vacuity of `groupvm_is_corevm_partial_or_group`: ANY event sequence
+example (es : List Nat) :=
+  groupvm_is_corevm_partial_or_group 1 exVMRootOr "m" "h0" exInstRoot exX exCfgOr { uid := "h0", pos := 1, status := .active, elem := none }
+    "f" "u" "e" [("l0", 3), ("l1", 6)] [0, 1] 14 {}
+    { hi := rfl, hx := rfl, hc := rfl, hh := rfl, hlt := by decide, hst := by decide } rfl rfl rfl (by decide) rfl
+    (by
+      intro lp hlp
+      simp at hlp
+      rcases hlp with rfl | rfl
+      · exact ⟨rfl, by decide, CoreVM.notMatchAt_of _ _ _ (by decide) rfl rfl⟩
+      · exact ⟨rfl, by decide, CoreVM.notMatchAt_of _ _ _ (by decide) rfl rfl⟩)
+    (by
+      intro lp hlp
+      simp at hlp
+      rcases hlp with rfl | rfl
+      · exact ⟨by decide, exSpec "E0", false, "E0", rfl, rfl, rfl, rfl⟩
+      · exact ⟨by decide, exSpec "E1", false, "E1", rfl, rfl, rfl, rfl⟩)
+    rfl
+    (by intro m _ hm; simp [exInstRoot, CoreIndex.Inst.headUids] at hm; exact uidOf_ne_h0 m hm)
+    rfl rfl rfl
+    (by
+      intro m _
+      have : (("m", CoreVM.uidOf m) : CoreIndex.Key) ≠ ("m", "h0") := by
+        intro e; exact uidOf_ne_h0 m (by simpa using e)
+      have h2 : ¬ ("h0" = CoreVM.uidOf m) := fun e => uidOf_ne_h0 m e.symm
+      simp [exVMRootOr, OMap.lookup, this, h2])
+    uidOf_ne_u
+    { hl := rfl, hsize := by decide, hm := rfl }
+    (by intro lp hlp; simp at hlp; rcases hlp with rfl | rfl <;> exact ⟨rfl, by decide⟩)
+    (by decide) rfl
+    (by
+      intro n hn
+      have : n ≤ 2 := hn
+      rcases n with _ | _ | _ | n
+      · trivial
+      · trivial
+      · exact ⟨by decide, Or.inl rfl⟩
+      · omega)
+    es
 
 end NemoVerif.C07
